@@ -235,7 +235,9 @@ M("pred-bound-rewritten", ["~C03"], SUP,
 # semi-supervised (C15)
 # ---------------------------------------------------------------------------
 _SEMI_APPEND = ("        current_n_nodes = self.subgraph.n_nodes\n        for i, feature in enumerate(X_unlabeled):\n"
-                "            node = Node(current_n_nodes + i, 0, feature)\n\n            self.subgraph.nodes.append(node)\n\n")
+                "            if I_unlabeled is not None:\n                node = Node(I_unlabeled[i].item(), 0, feature)\n"
+                "            else:\n                node = Node(current_n_nodes + i, 0, feature)\n\n"
+                "            self.subgraph.nodes.append(node)\n\n")
 M("semi-append-before-prototypes", ["C15", "C02"], SEMI,
   "        self._find_prototypes()\n\n" + _SEMI_APPEND, _SEMI_APPEND + "        self._find_prototypes()\n\n")
 M("semi-heap-before-append", ["C15"], SEMI,
@@ -253,7 +255,7 @@ M("semi-label-from-p-true", ["C15"], SEMI,
 M("semi-skip-last-unlabeled", ["C15"], SEMI,
   "        for i, feature in enumerate(X_unlabeled):", "        for i, feature in enumerate(X_unlabeled[:-1]):")
 M("semi-wrong-row", ["C15"], SEMI,
-  "            node = Node(current_n_nodes + i, 0, feature)", "            node = Node(current_n_nodes + i, 0, X_unlabeled[0])")
+  "                node = Node(current_n_nodes + i, 0, feature)", "                node = Node(current_n_nodes + i, 0, X_unlabeled[0])")
 M("semi-graph-from-unlabeled", ["C15"], SEMI,
   "        self.subgraph = Subgraph(X_train, Y_train, I_train)", "        self.subgraph = Subgraph(X_unlabeled, Y_train, I_train)")
 M("semi-prototypes-requeued-cost", ["C15", "C02"], SEMI,
@@ -424,3 +426,58 @@ M("kl-log-difference", ["~C06", "~C08"], DIST,
 M("manhattan-np-abs", ["~C06", "~C08"], DIST,
   "    dist = np.fabs(x - y)\n\n    return np.sum(dist)\n\n\n@njit(cache=True)\ndef matusita",
   "    dist = np.abs(y - x)\n\n    return np.sum(dist)\n\n\n@njit(cache=True)\ndef matusita")
+
+# ---------------------------------------------------------------------------
+# pre-computed distances (C10)
+# ---------------------------------------------------------------------------
+M("sel-idx-dropped", ["C10"], SUP,
+  "                            weight = self.pre_distances[self.subgraph.nodes[p].idx][\n                                self.subgraph.nodes[q].idx\n                            ]\n                        else:\n                            weight = self.distance_fn(\n                                self.subgraph.nodes[p].features,\n                                self.subgraph.nodes[q].features,\n                            )\n\n                        if weight < h.cost[q]:",
+  "                            weight = self.pre_distances[p][\n                                self.subgraph.nodes[q].idx\n                            ]\n                        else:\n                            weight = self.distance_fn(\n                                self.subgraph.nodes[p].features,\n                                self.subgraph.nodes[q].features,\n                            )\n\n                        if weight < h.cost[q]:")
+M("sel-predict-transposed", ["C10"], SUP,
+  "                weight = self.pre_distances[self.subgraph.nodes[k].idx][\n                    pred_subgraph.nodes[i].idx\n                ]",
+  "                weight = self.pre_distances[pred_subgraph.nodes[i].idx][\n                    self.subgraph.nodes[k].idx\n                ]")
+M("sel-predict-wrong-node", ["C10"], SUP,
+  "                    weight = self.pre_distances[self.subgraph.nodes[l].idx][\n                        pred_subgraph.nodes[i].idx\n                    ]",
+  "                    weight = self.pre_distances[self.subgraph.nodes[k].idx][\n                        pred_subgraph.nodes[i].idx\n                    ]")
+M("sel-flag-inverted", ["C10"], KSUB,
+  "                if pre_computed_distance:\n                    distance = pre_distances[self.nodes[i].idx][self.nodes[j].idx]\n\n                else:",
+  "                if not pre_computed_distance:\n                    distance = pre_distances[self.nodes[i].idx][self.nodes[j].idx]\n\n                else:")
+M("sel-createarcs-self-pair", ["C10"], KSUB,
+  "                        distances[k] = pre_distances[self.nodes[i].idx][\n                            self.nodes[j].idx\n                        ]",
+  "                        distances[k] = pre_distances[self.nodes[i].idx][\n                            self.nodes[i].idx\n                        ]")
+M("sel-cut-uses-train-pos", ["C10"], UNS,
+  "                    distance = self.pre_distances[self.subgraph.nodes[i].idx][\n                        self.subgraph.nodes[j].idx\n                    ]",
+  "                    distance = self.pre_distances[i][j]")
+M("knn-forward-swapped", ["C10"], KNN,
+  "        self.subgraph.create_arcs(\n            self.subgraph.best_k,\n            self.distance_fn,\n            self.pre_computed_distance,\n            self.pre_distances,\n        )",
+  "        self.subgraph.create_arcs(\n            self.subgraph.best_k,\n            self.distance_fn,\n            False,\n            self.pre_distances,\n        )")
+M("build-ignores-index", ["C10"], SUBG,
+  "                node = Node(I[i].item(), label.item(), feature)", "                node = Node(i, label.item(), feature)")
+M("build-index-off-by-one", ["C10"], SUBG,
+  "                node = Node(I[i].item(), label.item(), feature)", "                node = Node(I[i - 1].item(), label.item(), feature)")
+M("fit-drops-index", ["C10"], SUP,
+  "        self.subgraph = Subgraph(X_train, Y_train, I=I_train)", "        self.subgraph = Subgraph(X_train, Y_train)")
+M("predict-uses-train-index", ["C10"], UNS,
+  "        pred_subgraph = KNNSubgraph(X_val, I=I_val)", "        pred_subgraph = KNNSubgraph(X_val, I=None)")
+M("semi-revert-n1", ["C10"], SEMI,
+  "            if I_unlabeled is not None:\n                node = Node(I_unlabeled[i].item(), 0, feature)\n            else:\n                node = Node(current_n_nodes + i, 0, feature)\n",
+  "            node = Node(current_n_nodes + i, 0, feature)\n")
+M("precompute-transposed", ["C10"], GEN,
+  "            distances[i][j] = d.DISTANCES[distance](data[i], data[j])", "            distances[j][i] = d.DISTANCES[distance](data[i], data[j])")
+M("precompute-upper-only", ["C10"], GEN,
+  "        for j in range(size):\n            distances[i][j] = d.DISTANCES", "        for j in range(i, size):\n            distances[i][j] = d.DISTANCES")
+M("precompute-revert-f4", ["C10"], GEN,
+  "    np.savetxt(output, distances, delimiter=delimiter)", "    np.savetxt(output, distances)")
+M("precompute-lossy-fmt", ["C10"], GEN,
+  "    np.savetxt(output, distances, delimiter=delimiter)", "    np.savetxt(output, distances, delimiter=delimiter, fmt=\"%.6f\")")
+M("loader-csv-semicolon", ["C10", "C18"], LOAD, "        csv = np.loadtxt(csv_path, delimiter=\",\")", "        csv = np.loadtxt(csv_path, delimiter=\";\")")
+M("get-distances-normalize-by-max", ["C10"], OPFC,
+  "            return (distances - distances.min()) / (\n                distances.max() - distances.min()\n            )",
+  "            return (distances - distances.min()) / (\n                distances.max()\n            )")
+M("get-distances-swapped-pair", ["C10"], OPFC,
+  "                distances[i][j] = self.distance_fn(\n                    self.subgraph.nodes[i].features, self.subgraph.nodes[j].features\n                )",
+  "                distances[i][j] = self.distance_fn(\n                    self.subgraph.nodes[j].features, self.subgraph.nodes[i].features\n                )")
+M("precompute-delimiter-conditional-flipped", ["~C10"], GEN,
+  "    delimiter = \",\" if output.split(\".\")[-1] == \"csv\" else \" \"", "    delimiter = \" \" if output.split(\".\")[-1] != \"csv\" else \",\"")
+M("precompute-explicit-fmt-18e", ["~C10"], GEN,
+  "    np.savetxt(output, distances, delimiter=delimiter)", "    np.savetxt(output, distances, delimiter=delimiter, fmt=\"%.18e\")")
